@@ -174,12 +174,15 @@ impl Indexable for ast::Def {
     type Output = ();
     fn index(&self, ctx: &mut IndexCtx) -> Option<Self::Output> {
         let defset_id = ctx.scopes.current_defset_id();
+        // a def is a child of the enclosing defset in the outline only when both are in the same file
+        let in_defset_of_this_file = defset_id
+            .is_some_and(|id| ctx.symbol_map.defset(id).define_loc.file == ctx.current_file_id());
 
         let def_id = match self.name() {
             Some(name_value) => {
                 let (name, define_loc) = index_name_value(name_value, ctx)?;
                 let def = Record::new(name, RecordKind::Def, define_loc);
-                ctx.symbol_map.add_record(def, defset_id.is_none())
+                ctx.symbol_map.add_record(def, !in_defset_of_this_file)
             }
             None => {
                 let name = ctx.next_anonymous_def_name();
@@ -217,12 +220,14 @@ impl Indexable for ast::Defm {
     type Output = ();
     fn index(&self, ctx: &mut IndexCtx) -> Option<Self::Output> {
         let defset_id = ctx.scopes.current_defset_id();
+        let in_defset_of_this_file = defset_id
+            .is_some_and(|id| ctx.symbol_map.defset(id).define_loc.file == ctx.current_file_id());
 
         let defm_id = match self.name() {
             Some(name_value) => {
                 let (name, define_loc) = index_name_value(name_value, ctx)?;
                 let defm = Defm::new(name, define_loc);
-                ctx.symbol_map.add_defm(defm, defset_id.is_none())
+                ctx.symbol_map.add_defm(defm, !in_defset_of_this_file)
             }
             None => {
                 let name = ctx.next_anonymous_def_name();
